@@ -42,16 +42,16 @@ Theorem closed_own : forall r u, uv_closed u = true -> uv_read r u = uv_value u.
 Proof. intros r u H. unfold uv_read. rewrite H. reflexivity. Qed.
 
 (* ---------- findUpvalue ---------- *)
-Lemma fu_loop_spec : forall uvs cache idx lo,
+Lemma fu_loop_spec : forall uvs cache idx lo th,
   sorted_from uvs lo cache -> lo < idx ->
   let fresh := length uvs in
   let '(r, c') := fu_loop uvs cache idx fresh in
-  let uvs' := if Nat.eqb r fresh then uvs ++ [mkUv idx false None] else uvs in
+  let uvs' := if Nat.eqb r fresh then uvs ++ [mkUv idx false None th] else uvs in
   sorted_from uvs' lo c' /\ In r c' /\ uv_index (uvat uvs' r) = idx /\
   (forall u, In u cache -> In u c') /\
   (r <> fresh -> c' = cache).
 Proof.
-  intros uvs cache idx. induction cache as [|u rest IH]; intros lo Hs Hlo; cbv zeta.
+  intros uvs cache idx. induction cache as [|u rest IH]; intros lo th Hs Hlo; cbv zeta.
   - simpl. rewrite Nat.eqb_refl. rewrite uvat_app_new. simpl.
     rewrite app_length. simpl.
     split; [repeat split; auto; lia|]. split; [left; reflexivity|]. split; [reflexivity|].
@@ -63,7 +63,7 @@ Proof.
       rewrite Hne. simpl. repeat split; auto; lia.
     + destruct (uv_index (uvat uvs u) >? idx) eqn:E2.
       * rewrite Nat.eqb_refl.
-        set (nw := mkUv idx false None).
+        set (nw := mkUv idx false None th).
         assert (Hn : uvat (uvs ++ [nw]) (length uvs) = nw) by apply uvat_app_new.
         split; [|split; [|split; [|split]]].
         -- simpl sorted_from. rewrite Hn. rewrite uvat_app by assumption. rewrite app_length. simpl.
@@ -72,7 +72,7 @@ Proof.
         -- rewrite Hn. reflexivity.
         -- intros v Hv. right. exact Hv.
         -- intro Hf. exfalso. apply Hf. reflexivity.
-      * specialize (IH (uv_index (uvat uvs u)) D ltac:(lia)). cbv zeta in IH.
+      * specialize (IH (uv_index (uvat uvs u)) th D ltac:(lia)). cbv zeta in IH.
         destruct (fu_loop uvs rest idx (length uvs)) as [r c'].
         destruct IH as [I1 [I2 [I3 [I4 I5]]]].
         split; [|split; [|split; [|split]]].
@@ -90,7 +90,7 @@ Lemma findUpvalue_unfold : forall idx s,
   let fresh := length (vuvs s) in
   let '(r, c') := fu_loop (vuvs s) (vuvcache s) idx fresh in
   if Nat.eqb r fresh
-  then (r, with_uvcache (with_uvs s (vuvs s ++ [mkUv idx false None])) c')
+  then (r, with_uvcache (with_uvs s (vuvs s ++ [mkUv idx false None (vcur s)])) c')
   else (r, s).
 Proof. reflexivity. Qed.
 
@@ -107,7 +107,7 @@ Proof.
   intros idx s [lo Hs].
   assert (Hs' : sorted_from (vuvs s) (Z.min lo (idx - 1)) (vuvcache s))
     by (eapply sorted_from_weaken; [|exact Hs]; lia).
-  pose proof (fu_loop_spec (vuvs s) (vuvcache s) idx (Z.min lo (idx - 1)) Hs' ltac:(lia)) as H.
+  pose proof (fu_loop_spec (vuvs s) (vuvcache s) idx (Z.min lo (idx - 1)) (vcur s) Hs' ltac:(lia)) as H.
   cbv zeta in H. rewrite findUpvalue_unfold. cbv zeta.
   destruct (fu_loop (vuvs s) (vuvcache s) idx (length (vuvs s))) as [r c'].
   destruct H as [H1 [H2 [H3 [H4 H5]]]].
@@ -293,7 +293,8 @@ Theorem close_ge : forall idx s,
   state_cache_inv s' /\
   (forall u, In u (vuvcache s') -> uv_index (uvat (vuvs s') u) < idx /\ uv_closed (uvat (vuvs s') u) = false) /\
   (forall u, In u (vuvcache s) -> uv_index (uvat (vuvs s) u) >= idx ->
-      uvat (vuvs s') u = mkUv (uv_index (uvat (vuvs s) u)) true (rd (arr (vreg s)) (uv_index (uvat (vuvs s) u)))) /\
+      uvat (vuvs s') u = mkUv (uv_index (uvat (vuvs s) u)) true (rd (arr (vreg s)) (uv_index (uvat (vuvs s) u)))
+                              (uv_thread (uvat (vuvs s) u))) /\
   (forall u, ~ (In u (vuvcache s) /\ uv_index (uvat (vuvs s) u) >= idx) -> uvat (vuvs s') u = uvat (vuvs s) u) /\
   vreg s' = vreg s /\ vstack s' = vstack s.
 Proof.
